@@ -35,7 +35,7 @@ const (
 )
 
 type c09Op struct {
-	Op     string `json:"op"` // quota | cfgsync | count | hb | elapse | strategy | enable
+	Op     string `json:"op"` // quota | cfgsync | count | hb | elapse | strategy | schema | enable
 	D      string `json:"d"`  // quota: mi | tb | none
 	A      int32  `json:"a"`  // quota: max | qps
 	B      int32  `json:"b"`  // quota: burst
@@ -48,6 +48,10 @@ type c09Op struct {
 	Rate   int32  `json:"rate"` // count err: meter rate reading
 	Ready  bool   `json:"ready"`
 	Sec    int    `json:"sec"`
+	NL1    int32  `json:"nl1"` // schema: new local / global limits (same type)
+	NL2    int32  `json:"nl2"`
+	NG1    int32  `json:"ng1"`
+	NG2    int32  `json:"ng2"`
 }
 
 type c09Case struct {
@@ -234,12 +238,15 @@ func runC09(raw json.RawMessage) interface{} {
 	defer cache.Stop()
 	rec := flowcontrols.VerifReconcile(lim)
 	meter := remote.VerifMeter(cache)
-	capAdm := int(c.G1) + 5
-	if capAdm < 5 {
-		capAdm = 5
-	}
-	if capAdm > 70 {
-		capAdm = 70
+	probeCap := func() int {
+		capAdm := int(c.G1) + 5 // follows the global limit currently configured
+		if capAdm < 5 {
+			capAdm = 5
+		}
+		if capAdm > 70 {
+			capAdm = 70
+		}
+		return capAdm
 	}
 
 	steps := []c09Step{}
@@ -248,7 +255,7 @@ func runC09(raw json.RawMessage) interface{} {
 			st.Ready = cs.IsReady(cluster)
 		}
 		st.Rem = describeRemote(cache)
-		probe(lim, cache, capAdm, st)
+		probe(lim, cache, probeCap(), st)
 	}
 	{
 		var st c09Step
@@ -309,6 +316,10 @@ func runC09(raw json.RawMessage) interface{} {
 				}
 			case "strategy":
 				strategy = op.S
+				lim.Sync(proxyv1alpha1.FlowControl{Schemas: []proxyv1alpha1.FlowControlSchema{mkSchema(&c, strategy)}})
+			case "schema":
+				// the operator changes the limits of the schema: UpstreamLimiter.Sync -> localWrapper.Sync
+				c.L1, c.L2, c.G1, c.G2 = op.NL1, op.NL2, op.NG1, op.NG2
 				lim.Sync(proxyv1alpha1.FlowControl{Schemas: []proxyv1alpha1.FlowControlSchema{mkSchema(&c, strategy)}})
 			default:
 				panic(fmt.Sprintf("unknown op %q", op.Op))
